@@ -47,7 +47,7 @@ def verts_of(S):
 
 
 def cases(tier, seed):
-    specs = [{"id": f, "family": f, "tier": tier} for f in ("square", "triangle", "regular", "circle", "invalid")]
+    specs = [{"id": f, "family": f, "tier": tier} for f in ("square", "triangle", "regular", "circle", "invalid", "point2d")]
     n = len(al.T3)
     for k in range(8):
         specs.append({"id": "polygon:%d" % k, "family": "polygon", "polygon": k, "tier": tier, "seed": seed})
@@ -265,6 +265,41 @@ def run_case(spec):
                             fail("far", "outside point contained")
                 if prev is not None and abs(prev - math.pi * float(rg.ex(num(r))) ** 2) > 1e-4 * float(rg.ex(num(r))) ** 2:
                     mkfail("circle(radius=%s, center=%s, ndivangle=256)" % (r, c))("converge", "area %r does not approach pi r^2" % prev)
+    elif sid == "point2d":
+        # the caller's Point2D centre is an input, not scratch space: unchanged after the call, and a
+        # second call with the same object gives the same shape
+        for cx, cy in ((3, -2), (F(1, 3), F(2, 7)), (0.5, -1.25)):
+            for nm, fn in (
+                ("square(2, c)", lambda c: Pr.square(2, c)),
+                ("square(0.75, c)", lambda c: Pr.square(0.75, c)),
+                ("triangle(2, c)", lambda c: Pr.triangle(2, c)),
+                ("regular_polygon(5, 1, c)", lambda c: Pr.regular_polygon(5, 1, c)),
+                ("regular_polygon(4, 2, c)", lambda c: Pr.regular_polygon(4, 2, c)),
+                ("circle(1, c, 8)", lambda c: Pr.circle(1, c, 8)),
+            ):
+                c = lib.Point2D(cx, cy)
+                cid = "%s with c = Point2D(%s, %s)" % (nm, cx, cy)
+                fail = mkfail(cid)
+                st, S1 = call_limited(lambda: fn(c), 30)
+                evals[0] += 1
+                nontrivial.append(cid)
+                if st != "ok":
+                    fail("noresult", exc_str(S1) if st == "raise" else st)
+                    continue
+                if (rg.ex(c._x), rg.ex(c._y)) != (rg.ex(cx), rg.ex(cy)):
+                    fail("centre-modified", "the Point2D passed as centre is now (%s, %s)" % (c._x, c._y))
+                st, S2 = call_limited(lambda: fn(c), 30)
+                st3, S3 = call_limited(lambda: fn((cx, cy)), 30)
+                if st != "ok" or st3 != "ok" or rg.geom_sig(S2) != rg.geom_sig(S3) or rg.geom_sig(S1) != rg.geom_sig(S3):
+                    fail("centre-reuse", "calls with the same Point2D centre / with the tuple give different shapes")
+                if any(p is c for p in S1.jordans[0].vertices):
+                    fail("centre-aliased", "the shape uses the caller's Point2D as a vertex")
+                hist["point2d"] = hist.get("point2d", 0) + 1
+        vs = [lib.Point2D(0, 0), lib.Point2D(4, 0), lib.Point2D(1, 3)]
+        S = Pr.polygon(vs)
+        S.move(5, 5)
+        if [(rg.ex(p._x), rg.ex(p._y)) for p in vs] != [(0, 0), (4, 0), (1, 3)]:
+            mkfail("polygon(list of Point2D)")("vertices-aliased", "moving the polygon moved the caller's Point2D vertices")
     elif sid == "invalid":
         calls = []
         for b in BAD_SIZE:
